@@ -102,6 +102,11 @@ var fixedProgs = []string{
 	"[1 ? 2, 3]", "[0 ? 2, 3]", "c=1; [c ? 2, 3]", "func g(x,y){x+y}; g(1 ? 2, 3)", "{'a': 1 ? 2, 'b': 3}", "[0 ? 1, 0 ? 2, 3, 4]", "c=0; x = [c ? 2, c ? 3, 5]; x",
 	"i=0; while i<3 { i=i+1; x = `a{% if i>1 { continue } %}b` }", "i=0; while i<3 { i=i+1; x = `a{% break %}b` }", "i=0; while i<3 { i=i+1; x = [1, `{% continue %}`] }",
 	"`a{% i=0; while i<3 { i=i+1; if i==2 { break } } %}b{i}`", "func g() { `a{% return 5 %}b` }; g()",
+	// a complete loop runs in the hole before the jump that leaves it is taken
+	"`A{ i=0; while i<2 { i=i+1; `x{ j=0; while j<1 {j=j+1}; if i==1 {continue}; i }` }; 'z' }B`",
+	"`[{ i=0; while i<3 { i=i+1; `x{% j=0; while j<1 {j=j+1}; if i==2 {break}; i %}` }; i }]`",
+	"i=0; while i<2 { i=i+1; x = `x{ j=0; while j<1 {j=j+1}; if i==1 {continue}; i }` }",
+	"i=0; while i<2 { i=i+1; x = `x{ j=0; while j<2 {j=j+1; if j==1 {continue}}; if i==1 {break}; i }y` }; x",
 	// loop conditions that begin with a literal, a die, a parenthesis, a call (the re-entry point of continue is the first
 	// instruction of the condition, whatever it is)
 	"i=0; while 1 { i=i+1; if i>3 { break }; continue }", "while d1 { break }", "i=0; while (i<3) { i=i+1; continue }", "i=0; while [1][0] && i<3 { i=i+1; if i==2 { continue } }",
